@@ -111,6 +111,9 @@ func genFan(t *rapid.T, o fanOpts) (sim.FanSpec, map[int]int) {
 	} else if !o.alwaysRpm {
 		f.NoRpm = rapid.IntRange(0, 4).Draw(t, "noRpm") == 0
 	}
+	if f.Kind == "file" && !f.NoRpm {
+		f.TildeRpm = rapid.IntRange(0, 3).Draw(t, "tildeRpm") == 0
+	}
 	if f.Kind == "cmd" {
 		o.noQuant = true // script based fans: plain integer store
 	}
